@@ -77,6 +77,13 @@ def draw_collections(rng):
         if rng.random() < 0.15:
             nA, nB = rng.randint(0, 40), rng.randint(0, 40)
         A, B = rand_boxes(rng, nA), rand_boxes(rng, nB)
+        if rng.random() < 0.3:
+            # the same shape twice in one collection (a contour pasted twice): two distinct objects that compare equal by value;
+            # both pairs belong to the answer
+            for C in (A, B):
+                if C and rng.random() < 0.7:
+                    for _ in range(rng.randint(1, 2)):
+                        C.insert(rng.randrange(len(C) + 1), C[rng.randrange(len(C))])
         if x_generic(A, B):
             return A, B
         # repair ties by shifting B by 1/2 in x
